@@ -26,6 +26,7 @@ type Case struct {
 	Frames    []string `json:"frames"` // catalogue names
 	Pipelined bool     `json:"pipelined"`
 	Cuts      int      `json:"cut_budget"`
+	Chunk     int      `json:"chunk,omitempty"` // fixed delivery size (long streams; no cut choices)
 	Choices   []int    `json:"choices"`
 }
 
@@ -108,7 +109,10 @@ func runStream(s stream, base Case, res *ev.Result, lc *local) {
 			}
 			r := limit - pos
 			n := r
-			if x.Left("cut") > 0 && r > 1 {
+			if base.Chunk > 0 && n > base.Chunk {
+				n = base.Chunk // fixed-size delivery (long streams): no choice
+			}
+			if base.Chunk == 0 && x.Left("cut") > 0 && r > 1 {
 				if i := x.Choose(r, "chunk"); i > 0 {
 					n = i
 					x.Spend("cut")
@@ -278,6 +282,16 @@ func run(tier string, shard, nsh int, res *ev.Result) {
 			jobs = append(jobs, job{append(big("fc16-max", 2), x), pipe, 1})
 		}
 	}
+	// long runs on ONE assembler (state that accumulates from request to request): 320 requests cycling through the whole
+	// catalogue, lock-step and sent ahead in pieces of 7, 300 and 1000 bytes
+	var marathon []string
+	for i := 0; i < 320; i++ {
+		marathon = append(marathon, cat[(i*7+i/16)%len(cat)].Name)
+	}
+	jobs = append(jobs, job{marathon, false, 0})
+	for _, sz := range []int{7, 300, 1000} {
+		jobs = append(jobs, job{marathon, true, -sz})
+	}
 	var mu sync.Mutex
 	tot := &local{states: map[string]struct{}{}}
 	ev.Par(len(jobs), runtime.NumCPU(), func(i int) {
@@ -286,7 +300,11 @@ func run(tier string, shard, nsh int, res *ev.Result) {
 		}
 		j := jobs[i]
 		lc := &local{states: map[string]struct{}{}}
-		runStream(mkStream(byName(cat, j.names)), Case{Frames: j.names, Pipelined: j.pipe, Cuts: j.cuts}, res, lc)
+		c := Case{Frames: j.names, Pipelined: j.pipe, Cuts: j.cuts}
+		if j.cuts < 0 {
+			c.Cuts, c.Chunk = 0, -j.cuts
+		}
+		runStream(mkStream(byName(cat, j.names)), c, res, lc)
 		mu.Lock()
 		tot.execs += lc.execs
 		tot.points += lc.points
